@@ -170,6 +170,17 @@ func (bridge *ExprBridge) preprocessCached(expression string) string {
 	return result
 }
 
+// loweredCached returns NormalizeSQLOperators(expression), memoized per text in the preprocess cache.
+func (bridge *ExprBridge) loweredCached(expression string) string {
+	key := "\x00ops:" + expression
+	if v, ok := bridge.preprocessCache.Load(key); ok {
+		return v.(string)
+	}
+	result := NormalizeSQLOperators(expression)
+	bridge.preprocessCache.Store(key, result)
+	return result
+}
+
 // CompileExpressionWithStreamSQLFunctions 编译表达式，包含StreamSQL函数
 func (bridge *ExprBridge) CompileExpressionWithStreamSQLFunctions(expression string, dataType any) (*vm.Program, error) {
 	// Cache compiled programs by expression source. A program is reusable while
@@ -244,6 +255,12 @@ func (bridge *ExprBridge) EvaluateExpression(expression string, data map[string]
 	// expr() 在运行期对当行数据求值动态子表达式。编译路径把 StreamSQL 函数烘焙进
 	// program 时，闭包的 ctx.Data 只携带函数包装、不含行数据，因此 expr() 必须走
 	// env 路径（其闭包捕获真实 data）。其余表达式走快速编译路径。
+	// expr-lang spells the logical and equality operators &&, ||, not, ==; a SELECT item reaches this point with
+	// the SQL spellings (AND, OR, NOT, =). The custom expression engine used as last resort below reads the SQL
+	// spellings, so it keeps the text as it is.
+	sqlText := expression
+	expression = bridge.loweredCached(expression)
+
 	if !bridge.usesExprFunction(expression) {
 		program, err := bridge.CompileExpressionWithStreamSQLFunctions(expression, data)
 		if err == nil {
@@ -268,7 +285,7 @@ func (bridge *ExprBridge) EvaluateExpression(expression string, data map[string]
 			return nil, fmt.Errorf("failed to evaluate function call '%s': %v", expression, err)
 		}
 		// 如果expr失败，回退到自定义expr系统（仅限数值计算）
-		return bridge.fallbackToCustomExpr(expression, data)
+		return bridge.fallbackToCustomExpr(sqlText, data)
 	}
 
 	return result, nil
